@@ -13,9 +13,9 @@ import c04_w3 as W
 
 PROP = "C04"
 LEVEL = "proof"
-GEN_UNITS = ["GenUtils3", "GenMethods", "GenUtils"]      # Props/C04Gen.v: sparse region read (all modes) and key dispatch over the GENERATED tt_renumberdim / tt_renumber / get_index_variant; Model/C04AsIs.v over tt_irenumber
-COQ_TARGETS = ["Props/C04.vo", "Props/C04Gen.vo", "Props/C04Impl.vo", "Model/C04Harness.vo", "Model/C04Extra.vo", "Model/C04AsIs.vo", "Model/C04AdvVal.vo", "Model/C04W4Harness.vo", "Model/C04W5Harness.vo", "Model/Harness.vo", "Props/W3C04.vo", "Props/W3Methods.vo"]
-THEOREM_FILES = ["Props/C04.v", "Props/C04Gen.v", "Props/C04Impl.v", "Props/W3C04.v", "Props/W3Methods.v"]
+GEN_UNITS = ["GenUtils3", "GenMethods", "GenUtils", "GenSptensor4"]      # Props/C04Gen.v: sparse region read (all modes) and key dispatch over the GENERATED tt_renumberdim / tt_renumber / get_index_variant; Model/C04AsIs.v over tt_irenumber
+COQ_TARGETS = ["Props/C04.vo", "Props/C04Gen.vo", "Props/C04Impl.vo", "Props/C04Gen5.vo", "Props/W4C04.vo", "Model/C04Harness.vo", "Model/C04Extra.vo", "Model/C04AsIs.vo", "Model/C04AdvVal.vo", "Model/C04W4Harness.vo", "Model/C04W5Harness.vo", "Model/Harness.vo", "Props/W3C04.vo", "Props/W3Methods.vo"]
+THEOREM_FILES = ["Props/C04.v", "Props/C04Gen.v", "Props/C04Impl.v", "Props/C04Gen5.v", "Props/W4C04.v", "Props/W3C04.v", "Props/W3Methods.v"]
 COQ_IMPORTS = ("From Coq Require Import List ZArith Bool.\n"
                "From PV Require Import Base.Index Np.Array Model.Sparse Model.Harness Model.C04Model Model.C04Harness Model.C04Extra Model.C04AsIs Model.C04AdvVal Model.C04W4Harness Model.C04W5Harness.\n")
 RULE = ("a case is a HISTORY of 1-14 reads/writes applied to a dense and a sparse tensor from the same start state "
@@ -37,16 +37,26 @@ RULE = ("a case is a HISTORY of 1-14 reads/writes applied to a dense and a spars
         "broadcasting or the outer product, nothing else), tenmat_rw and sptenmat_set (histories on a matricised tensor: 2-way array of "
         "fixed shape; out-of-range requests must raise; sptenmat additionally RAW against the transliteration of __setitem__). In every "
         "history each array / tensor operand of an earlier assignment is watched during all later steps (it must not change). "
+        "Wave 5: every `S[subs] = vals` step of a sparse history is additionally compared RAW with the transliteration of "
+        "sptensor._set_subscripts run from the raw state pyttb showed before the call (check_sparse_impl); stream defect:C04-N16 (index lists "
+        "with negative entries - reads, scalar / zero / tensor writes -, integers below -extent). "
         "non-trivial = at least one write and one nonzero somewhere (np_adv: key in the A-16 class); distinct = distinct history")
 CORRESPONDENCE_ONLY = [
-    "sptensor._set_subscripts (groups change / delete / insert, np.unique) and sptensor._set_subtensor (subdims deletion, khatrirao "
-    "enumeration, tt_irenumber of a sparse operand, repeated-index filter): the sparse model sp_set / sp_apply / sp_replace is the "
-    "specification-level algorithm of the refinement theorems, not a line-by-line transliteration; tied by raw state comparison "
-    "(stored order included) in the plain histories",
+    "sptensor._set_subtensor (shape loop, subdims deletion, khatrirao enumeration, tt_intersect_rows / tt_setdiff_rows, tt_irenumber of a "
+    "sparse operand, repeated-index filter): the sparse model sp_set / sp_apply / sp_replace is the specification-level algorithm of the "
+    "refinement theorems, not a line-by-line transliteration; tied by raw state comparison (stored order included) in the plain "
+    "histories.  (sptensor._set_subscripts IS transliterated since wave 5: Model/C04SpSetImpl.v, C04_set_subscripts_impl_model; what stays "
+    "trusted there: np_unique_rows / np_scatter / np_setdiff1d / np_take / np_mask of Np/NpZ.v as the meaning of the numpy calls, the hand "
+    "guard subscheck for tt_subscheck / tt_valscheck, the warning on duplicates is not modelled)",
     "tensor._set_linear / _set_subscripts / _set_subtensor (growth by zero padding, numpy scatter): dense model dense_assign, tied by raw "
     "state comparison",
-    "sptensor.__getitem__(region): the subdims FILTER, the expansion of repeated list indices and the column selection are hand-modelled "
-    "(insideb / renumber_all / keepc); the renumbering itself (all modes) is the GENERATED tt_renumber (Props/C04Gen.v)",
+    "sptensor.__getitem__(region): the expansion of repeated list indices and the column selection are hand-modelled (renumber_all / "
+    "keepc); the FILTER is the GENERATED sptensor.subdims (Props/C04Gen5.v C04_gen_subdims_filter, C04_gen_getitem_region) and the "
+    "renumbering (all modes) the GENERATED tt_renumber (Props/C04Gen.v); the normalisation of negative integers in front of them "
+    "(entry = shape[dim] + entry) is the hand function zkey",
+    "C04-N16 class (sptensor region keys with a negative entry inside an index list, or an integer below -extent): specification = numpy's "
+    "meaning (the entry counts from the end / the request is refused), encoded for the Coq model by normalising the list against the "
+    "extent (c04_util.norm_list_ops); no as-is model: sparse mismatches of this class are attributed to the open finding",
     "C04-N04 class (sparse tensor right-hand side through stepped / negative slices): as-is behaviour = Model/C04AsIs.v over the generated "
     "tt_irenumber, executable, compared exactly; no theorem relates it to the specification (it violates it: open finding)",
     "A-16 class in histories: numpy-following dense model check_dense_np, executable, compared exactly; the theorems about it are "
@@ -477,6 +487,31 @@ def defect_case(rng, fid):
                 op = ["set", key, ["scalar", _val(rng)]]
         elif fid == "A-17":
             op = ["set", ["lin", cells + rng.choice([0, 0, 1, 3])], ["scalar", _val(rng)]]
+        elif fid == "C04-N16":
+            k = rng.randrange(n)
+            d = shape[k]
+            kind = rng.choice(["lw", "lw", "lz", "lr", "lt", "iw", "ir"])
+            if kind[0] == "l":       # an index list with negative entries (distinct positions): numpy counts them from the end
+                picks = rng.sample(range(d), rng.randint(1, min(d, 2)))
+                l = [x - d if (j == 0 or rng.random() < 0.5) else x for j, x in enumerate(picks)]
+                es = [["l", l] if j == k else rng.choice([["i", rng.randrange(dd)], ["s", None, None, None]]) for j, dd in enumerate(shape)]
+                key = ["region", es]
+                if kind == "lr":
+                    op = ["get", key]
+                elif kind == "lt":
+                    try:
+                        _, asg = U.resolve_set(shape, key, ["scalar", 1])
+                    except U.Inadmissible:
+                        continue
+                    op = ["set", key, ["values", [_val(rng, 0.3) for _ in asg]]]
+                else:
+                    op = ["set", key, ["scalar", 0 if kind == "lz" else _val(rng)]]
+            else:                     # an integer below -extent: not a position of the array, the request must be refused
+                es = [["i", -d - rng.randint(1, 2)] if j == k else rng.choice([["i", rng.randrange(dd)], ["s", None, None, None]])
+                      for j, dd in enumerate(shape)]
+                op = ["get", ["region", es]] if kind == "ir" else ["set", ["region", es], ["scalar", _val(rng)]]
+                ops = [op, ["get", ["linslice", None, None, None]]]
+                return Case("history", {"start": start, "ops": ops, "classes": classes}, True, {"profile": profile})
         if op is None:
             continue
         trg = U.op_triggers(st, op, classes)          # open findings only
@@ -878,6 +913,8 @@ def _class_expr(a, o, cls):
         # a deliberately malformed request must be REJECTED by pyttb itself (AssertionError), not crash inside numpy
         if a.get("malformed") and s["exc"] and not s["exc"].startswith("AssertionError"):
             return "false"
+    if any(U._neg_list(op[1]) for op in ops):
+        ops = U.norm_list_ops(a["start"], ops)          # wave 5 (C04-N16): the model's index lists hold non-negative indices
     so = (o.get("start") or {}).get(cls)
     want0 = tgen.gdense(a["start"]["shape"], a["start"]["data"] if a["start"]["shape"] else [])
     if so is not None:
@@ -1220,6 +1257,9 @@ WITNESS_ARGS = {
     "A-16": {"start": _S23, "classes": ["dense"], "ops": [["get", ["region", [["l", [0, 1]], ["l", [0, 2]]]]]]},
     "C04-N04": {"start": _S23, "classes": ["sparse"],
                 "ops": [["set", ["region", [["i", 0], ["s", 0, 3, 2]]], ["values", [7, 8]]]]},
+    # wave 5: S[[-1], 0] = 5 on the 2 x 3 sptensor: numpy / tensor write position (1, 0); sptensor stores the subscript (-1, 0)
+    "C04-N16": {"start": _S23, "classes": ["sparse"],
+                "ops": [["set", ["region", [["l", [-1]], ["i", 0]]], ["scalar", 5]], ["get", ["region", [["i", 1], ["i", 0]]]]]},
 }
 _S32 = {"shape": [3, 2], "data": [0, 3, 0, 4, 0, 5], "subs": [[1, 0], [0, 1], [2, 1]], "vals": [3, 4, 5]}
 WITNESSES = {fid: _witness(a) for fid, a in WITNESS_ARGS.items()}
